@@ -903,7 +903,15 @@ def literal_family():
     for w in range(20):
         H("c13_inv_large_literal_%d" % w, "h_mod::ring_inv_large_literals(%d)" % w, {"C13": "probe"} if w in (3, 8, 9, 12, 13, 15, 18, 19) else Q("C13"), unwind=200, stubs=REALLOC,
           bound="LITERAL POINT: inv_large (hook verif_inv_large) in a 3-word ring m = (2^64+1)*c, case %d of 20: residues of 1-3 words with and without a common factor with m, expected value a constant computed outside; realloc stubbed as allocate + copy + free" % w)
+    import struct
+    for fv in (0.25, 0.75, 1.5, -1.5, 2.5, 3.0, 1e10, -1e10, 16777216.0, 1.0995116e12, 1e-20, -1e-20, 0.0, float("inf"), float("-inf"), float("nan")):
+        fb = struct.unpack("<I", struct.pack("<f", fv))[0]
+        for neg in (False, True):
+            H("c14_ord_f32_%08x_%s" % (fb, "n" if neg else "p"), "h_numord::ord_float_semi(%s,%d)" % ("true" if neg else "false", fb), TH("C14"), unwind=8,
+              bound="NumOrd both directions between EVERY %s one-word integer and the literal f32 %r" % ("negative" if neg else "non-negative", fv))
     H("c14_ord_float_literals", "h_numord::ord_float_literals()", Q("C14"), "i64", unwind=16, bound="LITERAL POINTS: NumOrd of 7 small integers against 9 literal f32/f64 values (fractions, halves, integers, -0.0, NaN)")
+    # (h_conv::from_f32 / from_f64_exp with a literal exponent field and a symbolic mantissa: 59 of 60 ran out of
+    #  memory - decode() masks the field out of the symbolic bits and the shift amount stays symbolic; unregistered)
     H("c06_from_float_literals", "h_conv::from_float_literals()", Q("C06"), "i64", unwind=16, bound="LITERAL POINTS: TryFrom<f32/f64> for IBig/UBig on 6 integral and 7 non-integral / non-finite literals")
     # h_float::ctx_add_literals (C03, not claimed) stays unregistered: see DESIGN 0.3
 
